@@ -321,3 +321,55 @@ def const_explore(fn, start_bb, env, on_block, assume_discr=None, limit=20000):
         for s in nxt:
             st.append((s, et))
     return n
+
+
+def local_uses(fn):
+    """local -> number of reads (operands, refs, projections bases) on non-cleanup blocks; drops are not uses"""
+    uses = {}
+
+    def place(p, base_only=False):
+        uses[p[0]] = uses.get(p[0], 0) + 1
+        for e in p[1:]:
+            if isinstance(e, list) and e[0] == "[]":
+                uses[e[1]] = uses.get(e[1], 0) + 1
+
+    def operand(o):
+        if o[0] in ("c", "m"):
+            place(o[1])
+
+    for b, blk in enumerate(fn.blocks):
+        if fn.is_cleanup(b):
+            continue
+        for st in blk[0]:
+            if st[0] != "=":
+                continue
+            if len(st[1]) > 1:
+                place(st[1])
+            rv = st[2]
+            k = rv[0]
+            if k in ("use", "repeat"):
+                operand(rv[1])
+            elif k in ("ref", "rawptr"):
+                place(rv[2])
+            elif k == "cast":
+                operand(rv[2])
+            elif k == "bin":
+                operand(rv[2])
+                operand(rv[3])
+            elif k == "un":
+                operand(rv[2])
+            elif k == "discr":
+                place(rv[1])
+            elif k == "agg":
+                for o in rv[2]:
+                    operand(o)
+        t = blk[1]
+        if t[0] == "call":
+            operand(t[1])
+            for a in t[2]:
+                operand(a)
+            if len(t[3]) > 1:
+                place(t[3])
+        elif t[0] in ("switch", "assert"):
+            operand(t[1])
+    return uses
